@@ -222,6 +222,25 @@ def handleTyOfS (rest : String) : String :=
     | _, _ => "(bad-program)"
   | _ => "(bad-request)"
 
+/-- `tyfold (S*)` : the verdict of the checker model on the program as written, and the type it assigns to the program
+    the folding model answers (what the implementation reports: it checks first, folds, and answers the type of the result) -/
+def handleTyFold (rest : String) : String :=
+  match Sexp.parseMany rest with
+  | [.list stmts] =>
+    match stmts.mapM Spec.exprOf with
+    | some ss =>
+      let show1 := fun (r : Check.Res Ty) => match r with
+        | .ok t => "(ok " ++ t.render ++ ")"
+        | .ill => "(ill)"
+        | .unsup => "(unsup)"
+      let v0 := show1 (CheckS.tySProgram [] ss)
+      match Fold.foldProgram ss with
+      | .ok p => "(tyfold " ++ v0 ++ " " ++ show1 (CheckS.tySProgram [] p) ++ ")"
+      | .error (.exec e) => "(tyfold " ++ v0 ++ s!" (error {e.name}))"
+      | .error (.unsup why) => "(tyfold " ++ v0 ++ " (fold-unsup " ++ Sexp.quote why ++ "))"
+    | none => "(bad-program)"
+  | _ => "(bad-request)"
+
 /-- `repl <flags> <fuel> (name*) (S*)*` -/
 def handleRepl (rest : String) : String :=
   match Sexp.parseMany rest with
@@ -309,6 +328,7 @@ def handleConc (all : Bool) (ncells inits threads : String) : String :=
 def handle (line : String) : String :=
   if line.startsWith "valdebug " || line.startsWith "valparse " then handleVal line else
   if line.startsWith "repl " then handleRepl ((line.drop 5).trimAscii.toString) else
+  if line.startsWith "tyfold " then handleTyFold ((line.drop 7).trimAscii.toString) else
   if line.startsWith "fold " then handleFold ((line.drop 5).trimAscii.toString) else
   if line.startsWith "tyofs " then handleTyOfS ((line.drop 6).trimAscii.toString) else
   if line.startsWith "tyoff " then handleTyOfF ((line.drop 6).trimAscii.toString) else
